@@ -16,8 +16,15 @@ from fractions import Fraction
 import vlib
 
 # until the files are listed in coq/_CoqProject the proof modules are compiled by hand (see report)
+# Proof modules in dependency order (compiled by coqc directly until they are listed in coq/_CoqProject):
+#   C27/SetModel.v C27/SetSpec.v C27/SetOrder.v C27/SetNum.v C27/SetCont.v C27/SetIvl.v C27/SetFin.v C27/SetInt.v
+#   C27/SetKey.v C27/SetWalk.v C27/SetProofs.v C27/SetTopo.v C27/SetSup.v C27/SetTheorems.v
 PROOF_MODULES = []
-OBLIGATIONS = []
+OBLIGATIONS = ["C27/P_%s.v" % n for n in (
+    "union_correct", "intersection_correct", "complement_correct", "complement_helper_correct",
+    "free_union_correct", "free_intersection_correct", "contains_sound",
+    "closure_correct_partial", "interior_correct_partial", "boundary_correct_partial", "sup_inf_bound_partial",
+    "boundary_union_refuted", "unbounded_recursion_refuted", "nonvacuous")]
 
 # defect flags of the model (coq/C27/SetModel.v, DF_*) -> known-finding keys
 FLAG_KEYS = {
@@ -81,6 +88,11 @@ CORPUS = [
     "closure\trationals", "interior\tintegers", "boundary\t%s" % fset([1, 2]), "closure\t(union integers %s)" % ivl(0, 1, 1, 1),
     "boundary\t(rawisect %s integers)" % ivl(0, 2, 0, 0),
     "interior\t(rawunion %s %s)" % (ivl(0, 1, 0, 0), fset([3])),
+    # the two classes recorded in known_findings.txt, in their natural form
+    "boundary\t(union %s %s)" % (ivl(1, 3, 0, 1), ivl(3, 5, 0, 0)),
+    "funion\t(isect rationals %s)\trationals" % ivl(0, 1, 0, 0),
+    "munion\t(rawisect %s %s)\trationals" % (ivl(-2, Fraction(13, 3), 0, 0), ivl(-3, Fraction(-3, 2), 1, 0)),
+    "misect\t(rawunion naturals0 %s)\t%s" % (ivl(Fraction(-3, 2), Fraction(5, 2), 1, 0), ivl("-oo", "oo", 0, 0)),
 ]
 
 
